@@ -200,10 +200,17 @@ def run(ctx):
     if want("r1"):
         if q:
             mc_cfg(sd, "r1a.cfg", confs="ConfsTiny", log="LogNone", rest=inv_rest)
+            ra = ctx.tlc(sd, "MC_Staking", "r1a.cfg", timeout=3000)
+            ctx.notes.append("R1a %.0fs %d states" % (ra.wall, ra.distinct))
         else:
-            mc_cfg(sd, "r1a.cfg", keys=keyset(4), confs="ConfsSmall", funds="FundsA", log="LogNone", rest=inv_rest)
-        ra = ctx.tlc(sd, "MC_Staking", "r1a.cfg", timeout=3000, coverage=not q)
-        ctx.notes.append("R1a %.0fs %d states" % (ra.wall, ra.distinct))
+            mc_cfg(sd, "r1a.cfg", keys=keyset(4), confs="ConfsOnOff1", log="LogNone", rest=inv_rest)
+            ra = ctx.tlc(sd, "MC_Staking", "r1a.cfg", timeout=6000)
+            ctx.notes.append("R1a 4 keys %.0fs %d states" % (ra.wall, ra.distinct))
+            mc_cfg(sd, "r1a2.cfg", confs="ConfsHist", log="LogNone", rest=inv_rest)
+            ra2 = ctx.tlc(sd, "MC_Staking", "r1a2.cfg", timeout=6000, coverage=True)
+            ctx.notes.append("R1a 3 keys all historical flag settings %.0fs %d states" % (ra2.wall, ra2.distinct))
+            if ra2.coverage_zero:
+                ctx.broken.append("vacuity guard (TLC -coverage): never taken: %s" % ", ".join(sorted(set(ra2.coverage_zero))))
         # ---- R1 (b) the code as it is: TLC must find the stale PreviousKey
         mc_cfg(sd, "r1b.cfg", defects="StalePrevDefect", log="LogNone", rest=inv_rest)
         rb = ctx.tlc(sd, "MC_Staking", "r1b.cfg", timeout=900, allow=("invariant",))
@@ -227,29 +234,27 @@ def run(ctx):
 
 
 def run_gen(ctx, sd, exe, q):
-
-    # ---- R2a transition cover
+    # ---- R2a transition cover: one behaviour per transition of the abstract state graph up to the depth bound
     gen_rest = "VIEW cvars\nACTION_CONSTRAINT EmitEdge\nINVARIANTS " + INVS
-    if q:
-        mc_cfg(sd, "gen.cfg", spec="GenSpec", defects="StalePrevDefect", log="LogSlim", depth=6, rest=gen_rest)
-    else:
-        mc_cfg(sd, "gen.cfg", spec="GenSpec", defects="StalePrevDefect", log="LogSlim", depth=8, keys=keyset(4),
-               confs="ConfsSmall", nums="1", rest=gen_rest)
-    beh = ctx.path("edges.ndjson")
-    g = ctx.tlc(sd, "MC_Staking", "gen.cfg", timeout=3000, behaviours_out=beh, count=False)
-    ctx.notes.append("gen %.0fs %d behaviours" % (g.wall, g.behaviours))
-    if g.ok and g.behaviours == 0:
-        ctx.broken.append("behaviour export produced nothing")
-    mm = ctx.path("mismatch1.ndjson")
-    h = ctx.vh(exe, ["replay", beh, mm], timeout=1800)
-    note_ok_actions(ctx, h)
-    ctx.cov(traces_validated_against_impl=int(h.stats.get("behaviours", 0)), evaluations=int(h.stats.get("steps", 0)),
-            distinct_nontrivial=int(h.stats.get("distinct_transitions", 0)),
-            known_deviation_reproduced_in_replay=int(h.stats.get("known_deviation_reproduced", 0)),
-            replay_mismatching=int(h.stats.get("mismatching", 0)))
-    if int(h.stats.get("mismatch_events", 0)) > 0:
-        validate(ctx, sd, mm, 3 if q else 4, int(h.stats["mismatch_events"]), "replayed TLC behaviour (transition cover)")
-
+    runs = [(3, "ConfsTiny", 6)] if q else [(4, "ConfsTiny", 6), (3, "ConfsOnOff1", 7)]
+    for i, (nk, confs, depth) in enumerate(runs):
+        mc_cfg(sd, "gen.cfg", spec="GenSpec", defects="StalePrevDefect", log="LogSlim", depth=depth, keys=keyset(nk),
+               confs=confs, rest=gen_rest)
+        beh = ctx.path("edges%d.ndjson" % i)
+        g = ctx.tlc(sd, "MC_Staking", "gen.cfg", timeout=3000, behaviours_out=beh, count=False,
+                    workers=1 if q else None)   # one worker: strict BFS order, so the cover is the same on every run
+        ctx.notes.append("gen %d keys %s depth %d: %.0fs %d behaviours" % (nk, confs, depth, g.wall, g.behaviours))
+        if g.ok and g.behaviours == 0:
+            ctx.broken.append("behaviour export produced nothing")
+        mm = ctx.path("mismatch1_%d.ndjson" % i)
+        h = ctx.vh(exe, ["replay", beh, mm], timeout=1800)
+        note_ok_actions(ctx, h)
+        ctx.cov(traces_validated_against_impl=int(h.stats.get("behaviours", 0)), evaluations=int(h.stats.get("steps", 0)),
+                distinct_nontrivial=int(h.stats.get("distinct_transitions", 0)),
+                known_deviation_reproduced_in_replay=int(h.stats.get("known_deviation_reproduced", 0)),
+                replay_mismatching=int(h.stats.get("mismatching", 0)))
+        if int(h.stats.get("mismatch_events", 0)) > 0:
+            validate(ctx, sd, mm, nk, int(h.stats["mismatch_events"]), "replayed TLC behaviour (transition cover)")
 
 
 def run_sim(ctx, sd, exe, q):
@@ -259,7 +264,7 @@ def run_sim(ctx, sd, exe, q):
            confs="ConfsFull", peers='"none", "eligible", "jailed", "bad"', funds="FundsB", nums="0, 1, 2, 3",
            auth="TRUE, FALSE", maxnj=3, rest=sim_rest)
     beh2 = ctx.path("sim.ndjson")
-    ctx.tlc(sd, "MC_Staking", "sim.cfg", simulate=40 if q else 600, depth=40, timeout=1800, behaviours_out=beh2, count=False)
+    ctx.tlc(sd, "MC_Staking", "sim.cfg", simulate=20 if q else 600, depth=40, timeout=1800, behaviours_out=beh2, count=False)
     mm2 = ctx.path("mismatch2.ndjson")
     h2 = ctx.vh(exe, ["replay", beh2, mm2], timeout=1800)
     note_ok_actions(ctx, h2)
@@ -274,7 +279,7 @@ def run_sim(ctx, sd, exe, q):
 def run_rv(ctx, sd, exe, q):
     # ---- R3' the staking SC reached the production way: wallets -> real validator SC -> ExecuteOnDestContext -> staking SC
     tr = os.path.join(sd, "trace.ndjson")
-    nt, ln, nk = (60, 60, 6) if q else (800, 80, 6)
+    nt, ln, nk = (40, 60, 6) if q else (800, 80, 6)
     rv = ctx.vh(exe, ["recordv", ctx.seed, nt, ln, nk, tr])
     st = validate(ctx, sd, tr, nk, int(rv.stats.get("events", 0)),
                   "random history through the real validator SC", obs_only=True)
@@ -286,7 +291,7 @@ def run_rv(ctx, sd, exe, q):
 def run_r3(ctx, sd, exe, q):
     # ---- R3 random real histories validated by TLC
     tr = os.path.join(sd, "trace.ndjson")
-    nt, ln, nk = (100, 60, 6) if q else (1200, 80, 6)
+    nt, ln, nk = (80, 60, 6) if q else (1200, 80, 6)
     r3 = ctx.vh(exe, ["record", ctx.seed, nt, ln, nk, tr])
     st = validate(ctx, sd, tr, nk, int(r3.stats.get("events", 0)), "random history on the real staking contract")
     if st in ("accepted", "drift"):
